@@ -241,6 +241,41 @@ func (d *Driver) Project() (Post, []byte, []byte, string) {
 	return p, reqB, respB, reqVar
 }
 
+// ProjectLite reads the cheap scalar state of the real transaction without touching its body readers
+// (used between the calls of a traced path).
+func (d *Driver) ProjectLite() Post {
+	var p Post
+	p.Fired = []int{}
+	for _, mr := range d.tx.MatchedRules() {
+		p.Fired = append(p.Fired, mr.Rule().ID())
+	}
+	p.Intr = toIntr(d.tx.Interruption())
+	p.DetIntr = eng.Intr{Action: "none"}
+	if d.itx != nil {
+		p.LastPhase = int(d.itx.LastPhase())
+		p.DetIntr = toIntr(d.itx.DetectionOnlyInterruption())
+		switch d.itx.RuleEngine {
+		case types.RuleEngineOn:
+			p.Engine = "On"
+		case types.RuleEngineDetectionOnly:
+			p.Engine = "DetectionOnly"
+		case types.RuleEngineOff:
+			p.Engine = "Off"
+		}
+		f := d.itx.VerifSnapshotFields()
+		if n, ok := f["requestBodyBuffer.length"].(int64); ok {
+			p.ReqStored = int(n)
+		}
+		if n, ok := f["responseBodyBuffer.length"].(int64); ok {
+			p.RespStored = int(n)
+		}
+		v := d.itx.Variables()
+		p.ReqErr = v.InboundDataError().Get() == "1"
+		p.RespErr = v.OutboundDataError().Get() == "1"
+	}
+	return p
+}
+
 func (d *Driver) Close() { _ = d.tx.Close() }
 
 // RunPath drives a whole path on a fresh WAF built from cfg and reports the result of the last call.
